@@ -6,7 +6,7 @@ import time
 from common import Rule, finish
 from hirtab import callees
 from hirutil import find, strip
-from c02 import rule_position_helpers
+from c02 import rule_position_helpers, rule_vacant_insert
 from c13 import native_closures, rule_char_decoder
 from mirutil import Body
 
@@ -91,6 +91,9 @@ def run(facts, tier):
                     if not is_none:
                         p4.violate("deleting-arm", "the constant-time removal in map_index is no longer in the arm taken when the update yields nothing", where=a["sp"])
     rules.append(p4.finish())
+
+    # ---------------- P10.5 an update that yields nothing creates no position (shared with C02 T2.9)
+    rules.append(rule_vacant_insert(facts, "P10.5").finish())
 
     explanation = ("Clipping of bounds, negative positions, character boundaries and the contents of spliced results are relations over run-time values: not decided. "
                    "Decided: four structural necessary conditions of the one-position-model statement: readers and updaters position through the same helper per container kind, "
